@@ -260,3 +260,191 @@ package gedcom
 //@   props C09
 //@   allows @caches, Document.nodes, elem:Node
 //@   result-fresh @tree
+
+// ---------------------------------------------------------------------------
+// C13 (a): read-only operations leave the abstract document alone: no read
+// named by the property may write an ABSTRACT field of a pre-existing object
+// (the fields the GEDCOM text and the views are functions of). Cache fields,
+// option structs, warning objects and the caller's own variables are not
+// abstract state. (The coherence half, C13 (b), is about the caches.)
+//@ fieldgroup abstract = SimpleNode.tag*, SimpleNode.value, SimpleNode.pointer, SimpleNode.children, elem:Node, elem:*IndividualNode, elem:*FamilyNode, elem:*ChildNode, Document.nodes, Document.HasBOM, Document.MaxLivingAge, ^SimpleNode, ^simpleDocumentNode, simpleDocumentNode.document, ChildNode.family, HusbandNode.family, WifeNode.family, unknown-callee
+//@ frame Document.String
+//@   props C13
+//@   denies @abstract
+//@ frame Document.GEDCOMString
+//@   props C13
+//@   denies @abstract
+//@ frame Document.Individuals
+//@   props C13
+//@   denies @abstract
+//@ frame Document.NodeByPointer
+//@   props C13
+//@   denies @abstract
+//@ frame Document.Families
+//@   props C13
+//@   denies @abstract
+//@ frame Document.Places
+//@   props C13
+//@   denies @abstract
+//@ frame Document.Sources
+//@   props C13
+//@   denies @abstract
+//@ frame Document.Nodes
+//@   props C13
+//@   denies @abstract
+//@ frame Document.Warnings
+//@   props C13
+//@   denies @abstract
+//@ frame IndividualNode.Name
+//@   props C13
+//@   denies @abstract
+//@ frame IndividualNode.Names
+//@   props C13
+//@   denies @abstract
+//@ frame IndividualNode.Sex
+//@   props C13
+//@   denies @abstract
+//@ frame IndividualNode.Spouses
+//@   props C13
+//@   denies @abstract
+//@ frame IndividualNode.Families
+//@   props C13
+//@   denies @abstract
+//@ frame IndividualNode.Is
+//@   props C13
+//@   denies @abstract
+//@ frame IndividualNode.FamilyWithSpouse
+//@   props C13
+//@   denies @abstract
+//@ frame IndividualNode.FamilyWithUnknownSpouse
+//@   props C13
+//@   denies @abstract
+//@ frame IndividualNode.IsLiving
+//@   props C13
+//@   denies @abstract
+//@ frame IndividualNode.Births
+//@   props C13
+//@   denies @abstract
+//@ frame IndividualNode.Baptisms
+//@   props C13
+//@   denies @abstract
+//@ frame IndividualNode.Deaths
+//@   props C13
+//@   denies @abstract
+//@ frame IndividualNode.Burials
+//@   props C13
+//@   denies @abstract
+//@ frame IndividualNode.Parents
+//@   props C13
+//@   denies @abstract
+//@ frame IndividualNode.SpouseChildren
+//@   props C13
+//@   denies @abstract
+//@ frame IndividualNode.LDSBaptisms
+//@   props C13
+//@   denies @abstract
+//@ frame IndividualNode.EstimatedBirthDate
+//@   props C13
+//@   denies @abstract
+//@ frame IndividualNode.EstimatedDeathDate
+//@   props C13
+//@   denies @abstract
+//@ frame IndividualNode.Similarity
+//@   props C13
+//@   denies @abstract
+//@ frame IndividualNode.SurroundingSimilarity
+//@   props C13
+//@   denies @abstract
+//@ frame IndividualNode.Children
+//@   props C13
+//@   denies @abstract
+//@ frame IndividualNode.AllEvents
+//@   props C13
+//@   denies @abstract
+//@ frame IndividualNode.Birth
+//@   props C13
+//@   denies @abstract
+//@ frame IndividualNode.Death
+//@   props C13
+//@   denies @abstract
+//@ frame IndividualNode.Baptism
+//@   props C13
+//@   denies @abstract
+//@ frame IndividualNode.Burial
+//@   props C13
+//@   denies @abstract
+//@ frame IndividualNode.Age
+//@   props C13
+//@   denies @abstract
+//@ frame IndividualNode.AgeAt
+//@   props C13
+//@   denies @abstract
+//@ frame IndividualNode.String
+//@   props C13
+//@   denies @abstract
+//@ frame IndividualNode.FamilySearchIDs
+//@   props C13
+//@   denies @abstract
+//@ frame IndividualNode.UniqueIDs
+//@   props C13
+//@   denies @abstract
+//@ frame IndividualNode.UniqueIdentifiers
+//@   props C13
+//@   denies @abstract
+//@ frame IndividualNode.Warnings
+//@   props C13
+//@   denies @abstract
+//@ frame FamilyNode.Husband
+//@   props C13
+//@   denies @abstract
+//@ frame FamilyNode.Wife
+//@   props C13
+//@   denies @abstract
+//@ frame FamilyNode.Children
+//@   props C13
+//@   denies @abstract
+//@ frame FamilyNode.HasChild
+//@   props C13
+//@   denies @abstract
+//@ frame FamilyNode.Similarity
+//@   props C13
+//@   denies @abstract
+//@ frame FamilyNode.Warnings
+//@   props C13
+//@   denies @abstract
+//@ frame FamilyNode.String
+//@   props C13
+//@   denies @abstract
+//@ frame NodesWithTag
+//@   props C13
+//@   denies @abstract
+//@ frame NodesWithTagPath
+//@   props C13
+//@   denies @abstract
+//@ frame IndividualNodes.Compare
+//@   props C13
+//@   denies @abstract
+//@ frame IndividualNodes.Similarity
+//@   props C13
+//@   denies @abstract
+//@ frame HusbandNode.Individual
+//@   props C13
+//@   denies @abstract
+//@ frame WifeNode.Individual
+//@   props C13
+//@   denies @abstract
+//@ frame ChildNode.Individual
+//@   props C13
+//@   denies @abstract
+//@ frame DateNode.DateRange
+//@   props C13
+//@   denies @abstract
+//@ frame Flatten
+//@   props C13
+//@   denies @abstract
+//@   allows Document.nodes, elem:Node
+// copying out into (another) document writes that document's node list
+//@ frame Filter
+//@   props C13
+//@   denies @abstract
+//@   allows Document.nodes, elem:Node
